@@ -60,3 +60,34 @@ Lemma ex7_refuted :
              pj_parts (project_parsed st) = [(type_text_plain, charset_utf8, bs "a=3Db")] /\
              pj_parts (project_built ex10_date ex7) = [(type_text_plain, charset_utf8, bs "a=b")].
 Proof. eexists. split; [vm_compute; reflexivity|]. split; vm_compute; reflexivity. Qed.
+
+(* ---------- second half: the re-render of the parsed message ---------- *)
+From Verif Require Import EmlRerender.
+From VerifProofs Require Import EmlRerenderProofs.
+
+Definition ex_mime_of (n : bytes) : bytes := if bytes_eqb n (bs "logo.png") then bs "image/png" else bs "text/plain".
+Definition ex10_rb2 : list bytes := [bs "e3e3e3e3e3e3e3e3e3e3"; bs "f4f4f4f4f4f4f4f4f4f4"; bs "a5a5a5a5a5a5a5a5a5a5"].
+Definition ex10_m2 : Writer.msg := reparsed ex_mime_of ex10_date ex10_msgid ex10.
+Definition ex10_z2 : rmsg := resolve [] [] ex10_rb2 ex10_m2.
+
+Lemma ex10_rerender_hypotheses :
+  (forall f, In f (m_embeds ex10 ++ m_attach ex10) -> f_mime f = ex_mime_of (f_name f)) /\
+  fresh_expected ex10_z2 = true /\ boundaries_ok ex10_z2 = true.
+Proof.
+  split; [|split; vm_compute; reflexivity].
+  intros f [E|[E|[]]]; subst f; reflexivity.
+Qed.
+
+(* computed directly: parse the first rendering, re-render, read with the independent reader *)
+Lemma ex10_rerender_direct :
+  exists st t2, eml_parse ex_pa ex_pl ex_pd (r_out (write_to ex10_date ex10_msgid ex10_rb ex10 unlimited)) = Ok st /\
+    read_tree (rerender ex_mime_of ex10_rb2 st) = Some t2 /\
+    tree_content t2 = tree_content (expected_tree ex10_z) /\ length (tree_content t2) = 4.
+Proof. eexists. eexists. split; [vm_compute; reflexivity|]. split; [vm_compute; reflexivity|]. split; vm_compute; reflexivity. Qed.
+
+(* 7bit (known finding 7bit-requoted): every trip quotes once more *)
+Lemma ex7_rerender_refuted :
+  exists st t2, eml_parse ex_pa ex_pl ex_pd (r_out (write_to ex10_date ex10_msgid ex10_rb ex7 unlimited)) = Ok st /\
+    read_tree (rerender ex_mime_of ex10_rb2 st) = Some t2 /\
+    map (option_map lc_content) (tree_content t2) = [Some (bs "a=3D3Db")].
+Proof. eexists. eexists. split; [vm_compute; reflexivity|]. split; vm_compute; reflexivity. Qed.
